@@ -28,7 +28,11 @@ def h_newcommand(parser, buf, mac, args, delim, pos):
     if name in parser.parms.newcommand_ignore:
         return []
     nargs = parser.get_text_expanded(args[2]).strip()
-    nargs = int(nargs) if nargs.isdecimal() else 0
+    if nargs.isdecimal():
+        # NB: int() raises an exception for extremely long numbers
+        nargs = int(nargs) if len(nargs) < 100 else 10
+    else:
+        nargs = 0
     if nargs > 9:
         # TeX allows at most 9 parameters: avoid huge argument code strings
         return utils.latex_error('illegal number of arguments in definition'
